@@ -74,6 +74,8 @@ def gen(rng, idx, tier, seed):
         'boundsopt': str(rng.choice(['ignore', 'warn', 'error'])),
         'nanlr': bool(rng.random() < 0.5),
         'int_coord': bool(rng.random() < 0.15),
+        # storage type of the coordinate and its bounds
+        'cdtype': str(rng.choice(['d', 'd', 'f', 'store-int'])),
     }
 
 
@@ -94,28 +96,41 @@ def make_coord(spec):
             e = np.cumsum(np.maximum(2, np.round(np.diff(e, prepend=e[0] - 2))
                                      ) * 2)
     c = (e[:-1] + e[1:]) / 2.
+    if cdtype_of(spec) == 'f':
+        # values exactly representable in the storage type
+        e = e.astype('f4').astype('f8')
+        c = c.astype('f4').astype('f8')
     if spec['dir'] == 'desc':
         e = e[::-1].copy()
         c = c[::-1].copy()
     return c, e
 
 
+def cdtype_of(spec):
+    t = spec.get('cdtype', 'd')
+    if t == 'store-int':
+        # integer storage only for integer-valued coordinates
+        return 'i' if spec.get('int_coord') else 'd'
+    return t
+
+
 def build(spec):
     import PseudoNetCDF as pnc
     c, e = make_coord(spec)
+    ct = cdtype_of(spec)
     f = pnc.PseudoNetCDFFile()
     n = spec['n']
     f.createDimension('x', n)
-    xv = f.createVariable('x', 'd', ('x',))
+    xv = f.createVariable('x', ct, ('x',))
     xv[:] = c
     b = spec['bounds']
     if b == 'edges1d':
         f.createDimension('x_edge', n + 1)
-        f.createVariable('x_bounds', 'd', ('x_edge',))[:] = e
+        f.createVariable('x_bounds', ct, ('x_edge',))[:] = e
     elif b in ('nx2', 'attr', 'bnds'):
         f.createDimension('nv', 2)
         name = {'nx2': 'x_bounds', 'attr': 'xedges', 'bnds': 'x_bnds'}[b]
-        bv = f.createVariable(name, 'd', ('x', 'nv'))
+        bv = f.createVariable(name, ct, ('x', 'nv'))
         bv[:, 0] = e[:-1]
         bv[:, 1] = e[1:]
         if b == 'attr':
@@ -321,7 +336,8 @@ def run_val(spec, res):
     facets = ['method:' + spec['method'], 'bounds:' + spec['bounds'],
               'dir:' + spec['dir'], 'clean:' + spec['clean'],
               'opt:' + spec['boundsopt'],
-              'uniform' if spec['uniform'] else 'nonuniform']
+              'uniform' if spec['uniform'] else 'nonuniform',
+              'stored:' + cdtype_of(spec)]
     res.ev(digest(spec), nontriv, facets)
     problems = judge(spec, c, e, q, out, warned, raised)
     if problems:
